@@ -304,6 +304,13 @@ func c02(r *core.Report) {
 		ruleRejectIsError(r, cs, "C02-PINNED-KEY")
 	}
 
+	// ---- C02-PLAINTEXT-OWNED (shared with C14/C01-DELIVER-OWNED): the swarm layer hands the decrypted plaintext to
+	// the application (and handshake replies to the transport) after the channel's lock is released; out of a
+	// buffer shared by the receive workers the next packet's plaintext replaces it: one message is delivered twice,
+	// another never, or application plaintext goes out where a handshake reply was meant
+	r.Rule("C02-PLAINTEXT-OWNED", "the plaintext a layer hands to a hub is not backed by a slice held in shared state", 8)
+	ruleDeliverOwned(r, resolveHubs(r), "C02-PLAINTEXT-OWNED")
+
 	// ---- C02-NO-PLAINTEXT
 	r.Rule("C02-NO-PLAINTEXT", "plaintext parameters are used only to be sealed; Send returns the AEAD output", 4)
 	{
